@@ -19,7 +19,7 @@ RULE = (
     "- after construction and immediately after every operation; all ordered pairs of the registry at fixed parameters are "
     "enumerated for presence + purge + recalculate; non-trivial = the pair has a name relationship or the program has >=2 operations"
 )
-FLOORS = {"name_relationship": (0.1, None)}
+FLOORS = {"name_relationship": (0.05, None)}
 
 TEMPLATES = (
     ({"cls": "TR", "kw": {}}, {"cls": "ATR", "kw": {"period": 3}}),
